@@ -965,13 +965,13 @@ def parseNat (base : Nat) : Str → Option Nat
 /-- the ten references that are kept as text (`&#38;` … — `decode_entities` turns them into named references later) -/
 def keptCharrefs : List Str := [S "34", S "38", S "39", S "60", S "62", S "x22", S "x26", S "x27", S "x3c", S "x3e"]
 
-/-- the text `handle_charref(ref)` appends: the reference itself for the ten kept ones, else the character — U+FFFD for surrogates and values beyond
-U+10FFFF; none when `int()` raises (sgmllib's tokenizer never hands over such a `ref`) -/
+/-- the text `handle_charref(ref)` appends: the reference itself for the ten kept ones, else the character — U+FFFD for surrogates, for values beyond
+U+10FFFF and for whatever `int()` refuses (the conversion sits inside the `try`).  (Kept `Option`-valued: always `some`.) -/
 def crefText (ref0 : Str) : Option Str :=
   let ref := lowerS ref0
   if keptCharrefs.contains ref then some (S "&#" ++ ref ++ [';']) else
   match (match ref with | 'x' :: h => parseNat 16 h | _ => parseNat 10 ref) with
-  | none => none
+  | none => some [Char.ofNat 0xFFFD]
   | some c => if c.isValidChar then some [Char.ofNat c] else some [Char.ofNat 0xFFFD]
 
 def name2codepoint (ref : Str) : Option Nat := (Gen.Mixin.name2codepointL.find? (·.1 == ref)).map (·.2)
